@@ -450,6 +450,14 @@ def make_world():
     from pytableaux import tools as T
     Operator, Quantifier, Predicate = _lang()
     w = World()
+    _sorted0 = w.builtin_models.get(sorted)
+    def _sorted(it, xs, **kw):
+        items = it.iterate(xs)
+        # world tokens stand for unknown distinct integers: their sorted order is SOME order -- the given one is as good as any
+        if items and all(isinstance(x, WorldTok) for x in items) and not kw: return list(items)
+        if _sorted0 is not None: return _sorted0(it, items, **kw)
+        raise Outside('sorted() of symbolic items')
+    w.builtin_models[sorted] = _sorted
     w.allow_inline(P.adds, P.sdwgroup, P.sdwnode, P.sdnode, P.swnode, P.snode, P.anode, T.group)
     for cls in (C.Node, C.SentenceNode, C.SentenceWorldNode, C.SentenceDesignationNode, C.SentenceDesignationWorldNode,
                 C.AccessNode, C.DesignationNode, C.WorldNode):
